@@ -4,11 +4,17 @@ go 1.22.0
 
 toolchain go1.23.5
 
-require golang.org/x/tools v0.29.0
+require (
+	github.com/hugelgupf/p9 v0.0.0-00010101000000-000000000000
+	golang.org/x/tools v0.29.0
+)
 
 require (
+	github.com/u-root/uio v0.0.0-20230305220412-3e8cd9d6bf63 // indirect
+	golang.org/x/exp v0.0.0-20231219180239-dc181d75b848 // indirect
 	golang.org/x/mod v0.22.0 // indirect
 	golang.org/x/sync v0.10.0 // indirect
+	golang.org/x/sys v0.29.0 // indirect
 )
 
 replace github.com/hugelgupf/p9 => /repo
